@@ -121,5 +121,13 @@ CLAIMS['C20'] = dict(
          'remaining readers are exercised by the native fuzz only; 7 recorded findings (C20-*).',
     note='clause-only claim; argparse axioms; constructor raises clauses as summarised',
     design_ref='DESIGN.md §5 C20')
+CLAIMS['C15'] = dict(
+    text='Proof over abstract strings of read(write(x)) = x for the option classes -w, -a, --helix, --taper-wire, --load, '
+         '--excitation-voltage/-pulse and --medium (+ --boundary/--radial-* presence): the real writer is executed on an object with arbitrary '
+         'field values, its text is fed to the real reader slice of main(), and the constructor arguments are compared with the fields '
+         '(positions by the real signatures); complex literals are decided through rendering classes with Python\'s own complex(). '
+         'Remaining option classes and sequence-level clauses: bounded native round trip only.',
+    note='printed precision abstracted (a %g token carries its value); argparse axioms',
+    design_ref='DESIGN.md §5 C15, Appendix E')
 for _p in CLAIMS:
     NOT_APPLICABLE.pop(_p, None)
